@@ -561,10 +561,20 @@ impl Td0 {
         debug!("cannot find cyl {} head {}",cyl,head);
         Err(img::Error::SectorAccess)
     }
+    /// Sector count and sector size code of track `trk`, error if there is no such track or it has no sectors.
+    fn track_geometry(&self,trk: usize) -> Result<(usize,u8),DYNERR> {
+        match self.tracks.get(trk) {
+            Some(t) if t.sectors.len()>0 => Ok((t.sectors.len(),t.sectors[0].header.sector_shift)),
+            _ => {
+                log::error!("track {} does not exist or has no sectors",trk);
+                Err(Box::new(img::Error::SectorAccess))
+            }
+        }
+    }
     /// This function is used if a CP/M block is requested.
     /// We can only comply if the user tracks are laid out homogeneously.
     fn check_user_area_up_to_cyl(&self,cyl: usize,off: u16) -> STDRESULT {
-        let sector_count = self.tracks[off as usize].sectors.len();
+        let (sector_count,_) = self.track_geometry(off as usize)?;
         let mut sector_shift: Option<u8> = None;
         if cyl*self.heads >= self.tracks.len() {
             log::error!("track {} was requested, max is {}",cyl*self.heads,self.tracks.len()-1);
@@ -647,8 +657,7 @@ impl img::DiskImage for Td0 {
         trace!("reading {}",addr);
         match addr {
             Block::CPM((_block,_bsh,off)) => {
-                let secs_per_track = self.tracks[off as usize].sectors.len();
-                let sector_shift = self.tracks[off as usize].sectors[0].header.sector_shift;
+                let (secs_per_track,sector_shift) = self.track_geometry(off as usize)?;
                 let mut ans: Vec<u8> = Vec::new();
                 let deblocked_ts_list = addr.get_lsecs((secs_per_track << sector_shift) as usize);
                 let chs_list = skew::cpm_blocking(deblocked_ts_list, sector_shift,self.heads)?;
@@ -665,7 +674,7 @@ impl img::DiskImage for Td0 {
                 Ok(ans)
             },
             Block::FAT((_sec1,_secs)) => {
-                let secs_per_track = self.tracks[0].sectors.len();
+                let (secs_per_track,_) = self.track_geometry(0)?;
                 let mut ans: Vec<u8> = Vec::new();
                 let deblocked_ts_list = addr.get_lsecs(secs_per_track);
                 let chs_list = skew::fat_blocking(deblocked_ts_list,self.heads)?;
@@ -687,8 +696,7 @@ impl img::DiskImage for Td0 {
         trace!("writing {}",addr);
         match addr {
             Block::CPM((_block,_bsh,off)) => {
-                let secs_per_track = self.tracks[off as usize].sectors.len();
-                let sector_shift = self.tracks[off as usize].sectors[0].header.sector_shift;
+                let (secs_per_track,sector_shift) = self.track_geometry(off as usize)?;
                 let deblocked_ts_list = addr.get_lsecs((secs_per_track << sector_shift) as usize);
                 let chs_list = skew::cpm_blocking(deblocked_ts_list, sector_shift,self.heads)?;
                 let mut src_offset = 0;
@@ -706,8 +714,7 @@ impl img::DiskImage for Td0 {
             },
             Block::FAT((_sec1,_secs)) => {
                 // TODO: do we need to handle variable sectors per track
-                let secs_per_track = self.tracks[0].sectors.len();
-                let sector_shift = self.tracks[0].sectors[0].header.sector_shift;
+                let (secs_per_track,sector_shift) = self.track_geometry(0)?;
                 let sec_size = 128 << sector_shift;
                 let deblocked_ts_list = addr.get_lsecs(secs_per_track);
                 let chs_list = skew::fat_blocking(deblocked_ts_list,self.heads)?;
